@@ -159,6 +159,11 @@ def guarded_index(ctx, crate, crs, tag):
                             # either edge may lead to the access, as long as the out-of-range edge resizes first
                             strict_ok = (side is c.b and c.op in ("Ge", "Lt")) or (side is c.a and c.op in ("Le", "Gt"))
                             if not strict_ok:
+                                # `len < n` is the right test when n is a required *length*: the maximum over a collection of
+                                # (index + 1), grown to before the same collection is walked (benign refactor 73: grow once)
+                                g = _grown_to_required_length(crate, b, c, side, i, t, fld)
+                                if g:
+                                    guard = c
                                 continue      # `idx > len` / `len < idx` style tests are off by one for an index
                             if b.dominates(c.bb, i):
                                 tr, fl = c.target(True), c.target(False)
@@ -192,6 +197,53 @@ def guarded_index(ctx, crate, crs, tag):
 
 
 # ------------------------------------------------------------------------------------------------
+def _grown_to_required_length(crate, b, c, side, acc_bb, acc_t, fld):
+    """cond `len(table) < n` (or `n > len(table)`) dominating the access, where n = max over a collection of (to_usize(..) + 1),
+    the in-range edge or a resize(table, n) leads to the access, and the accessed index is to_usize of an element of the same
+    collection."""
+    other = c.b if side is c.a else c.a
+    lt = (side is c.a and c.op == "Lt") or (side is c.b and c.op == "Gt")
+    if not lt or not b.dominates(c.bb, acc_bb) or len(acc_t["args"]) < 2:
+        return False
+    n_locs = q.slice_locals(b, other)
+    n_leaves = q.leaves(b, other)
+    if "call:max" not in n_leaves:
+        return False
+    plus_one = False
+    for i, j, s_ in b.assigns():
+        r = s_["r"]
+        if r["k"] == "agg" and r.get("ak") == "closure" and s_["p"]["l"] in n_locs:
+            cb = crate.by_path.get(r["def"])
+            if cb is None:
+                continue
+            for ci, cj, cs_ in cb.assigns():
+                cr = cs_["r"]
+                if cr["k"] == "bin" and cr["op"] in ("Add", "AddWithOverflow", "AddUnchecked") and \
+                        any(o.get("k") == "const" and o.get("v") == 1 for o in (cr["a"], cr["b"])) and \
+                        any(t2.get("f") and t2["f"]["name"] == "to_usize" for _, t2 in cb.calls()):
+                    plus_one = True
+    if not plus_one:
+        return False
+    # out-of-range edge resizes the table to n
+    out_edge = c.target(True)
+    resized = False
+    for x, tt in b.calls():
+        if tt.get("f") and tt["f"]["name"] in ("resize", "resize_with") and x in b.reachable([out_edge]) and len(tt["args"]) >= 2:
+            rr2, _ = q.origin_thru(b, tt["args"][0])
+            if any(q.mentions_field(rr2, a, fld) for a, f2 in TABLES if f2 == fld) and (q.slice_locals(b, tt["args"][1]) & n_locs):
+                resized = True
+    if not resized or acc_bb in b.reachable([out_edge], avoid=[x for x, tt in b.calls() if tt.get("f") and tt["f"]["name"] in ("resize", "resize_with")]):
+        return False
+    # the index is to_usize of an element of the collection the maximum was taken over
+    idx_leaves = q.leaves(b, acc_t["args"][1])
+    if "call:to_usize" not in idx_leaves:
+        return False
+    src_n = {l for l in n_leaves if l.startswith(("field:", "lfield:", "arg:"))}
+    src_i = {l for l in idx_leaves if l.startswith(("field:", "lfield:", "arg:"))}
+    shared_locals = (q.slice_locals(b, acc_t["args"][1]) & n_locs)
+    return bool(src_n & src_i) or bool(shared_locals)
+
+
 def two_watch(ctx, crate, crs, tag):
     R = "two-watch-distinct" + tag
     for ctor in ("constrains", "lock", "forbid_multiple"):
@@ -325,9 +377,11 @@ def soft_precondition(ctx, crate, crs, tag):
         loop = [l for l in loops if i in l[1]][0]
         ok, why = False, "no `is_none(assigned_value(var))` test dominating the run"
         for c in q.conds(b, crs):
-            if c.kind == "bool" and c.src and c.src.get("k") == "call" and c.src["t"]["f"]["name"] == "is_none":
+            # `if x.is_none() { run }` or `if x.is_some() { continue }` (also through a named boolean)
+            if c.kind == "bool" and c.src and c.src.get("k") == "call" and c.src["t"]["f"]["name"] in ("is_none", "is_some"):
+                undecided_edge = c.target(c.src["t"]["f"]["name"] == "is_none")
                 d, _ = q.origin_thru(b, c.src["t"]["args"][0], transparent=set())
-                if d["k"] == "call" and d["t"]["f"]["name"] == "assigned_value" and q.edge_dominates(b, c.bb, c.target(True), i):
+                if d["k"] == "call" and d["t"]["f"]["name"] == "assigned_value" and q.edge_dominates(b, c.bb, undecided_edge, i):
                     if d["bb"] in loop[1]:
                         # and it is about this iteration's solvable
                         vd, _ = q.origin_thru(b, d["t"]["args"][1], transparent=set())
